@@ -254,6 +254,20 @@ func randomCase(t *rapid.T, s string, label string) string {
 	return string(b)
 }
 
+// sizeClass: most cases are small (many small cases beat few large ones); a few per cent are drawn from the
+// regions where implementation thresholds live: more records than any channel buffer or worker pool
+// (50+threads, NumCPU+50), and sequences / lines longer than common buffer sizes (4096, 8192).
+// 0 = small, 1 = many records, 2 = long sequences.
+func sizeClass(t *rapid.T, label string) int {
+	switch rapid.IntRange(0, 49).Draw(t, label+"SizeClass") {
+	case 0, 1:
+		return 1
+	case 2:
+		return 2
+	}
+	return 0
+}
+
 func lower(b byte) byte {
 	if b >= 'A' && b <= 'Z' {
 		return b + 32
